@@ -214,6 +214,13 @@ fn dictionary() -> Vec<String> {
         "test123".to_string(),
         "mysecretkey".to_string(),
     ]
+    .into_iter()
+    // every length around the hash output (32) and block (64, 128) sizes: the two derivation sites (key generation and
+    // node configuration) must agree for all of them
+    .chain((0..=130usize).map(|n| "k".repeat(n)))
+    .chain((1..=130usize).map(|n| (0..n).map(|i| (b'a' + ((i * 7 + n) % 26) as u8) as char).collect::<String>()))
+    .chain([255usize, 256, 257].into_iter().map(|n| "z".repeat(n)))
+    .collect()
 }
 
 pub fn run(ctx: &Ctx) {
